@@ -4,6 +4,7 @@ Theorems over the hand-written model `Jobs` (tied to xonsh/procs/jobs.py by the 
 stream of xv/props/c20.py).  All statements quantify over every table / every op sequence.
 -/
 import XonshVerif.Model.Jobs
+import XonshVerif.Gen.JobsReg
 open Jobs
 
 /-! ## helper facts -/
@@ -457,3 +458,21 @@ example : TInv ⟨[(1, ⟨false, true, true⟩), (3, ⟨true, false, true⟩), (
 
 example : (clearDead ⟨[(1, ⟨false, true, true⟩), (3, ⟨true, false, true⟩), (2, ⟨true, true, false⟩)], [3, 1, 2]⟩).tasks
     = [3, 1] := by decide
+
+/-! ## registration of every pipeline that contains a real process (guard translated from /repo) -/
+
+/-- `_run_command_pipeline` registers a pipeline iff it has a process object and at least one of its
+stages is a real (non-proxy) process: mixed alias/process pipelines ARE registered, alias-only ones
+are not — for every pipeline length and every mix of stage kinds. -/
+theorem C20_registers (procIsSome : Bool) (isProxy : List Bool) :
+    Gen.JobsReg.registers procIsSome isProxy = (procIsSome && isProxy.any (fun p => !p)) := by
+  unfold Gen.JobsReg.registers
+  congr 1
+  induction isProxy with
+  | nil => rfl
+  | cons p ps ih =>
+    simp only [List.all_cons, List.any_cons]
+    cases p <;> simp_all
+
+example : Gen.JobsReg.registers true [true, false] = true := by decide
+example : Gen.JobsReg.registers true [true, true] = false := by decide
